@@ -222,6 +222,10 @@ fn run_impl(script: &str, files: &[(String, FileSpec)], yash3: bool) -> Result<R
                         libc::signal(sig, libc::SIG_DFL);
                     }
                 }
+                // a fixed descriptor limit, whatever the sandbox grants (C02/C10 rely on 300 being
+                // an invalid descriptor number; no C19 statement goes beyond 21)
+                let lim = libc::rlimit { rlim_cur: 256, rlim_max: 256 };
+                libc::setrlimit(libc::RLIMIT_NOFILE, &lim);
                 let mut set: libc::sigset_t = std::mem::zeroed();
                 libc::sigemptyset(&mut set);
                 libc::sigprocmask(libc::SIG_SETMASK, &set, std::ptr::null_mut());
